@@ -55,7 +55,7 @@ def judge(case):
         # remember the dangerous state: every other entry point is driven through it afterwards (see entry_point_space)
         with open("/dev/shm/c10_dangerous_%d_%d.jsonl" % (os.getppid(), os.getpid()), "a") as f:
             f.write(json.dumps(core.jsonable(case)) + "\n")
-    return core.result(cls, nontrivial=True, digest=core.digest_of([cls.split(":")[0], out["calls"], core.fhex(out["fluxes"][0]) if out["status"] == "ok" else None]),
+    return core.result(cls, nontrivial=True, digest=core.digest_of([cls.split(":")[0], core.fhex(out["fluxes"][0]) if out["status"] == "ok" else None, core.fhex(out["fluxes"][1]) if out["status"] == "ok" else None]),
                        viol=v, states=min(out["calls"], 10 ** 9), transitions=max(out["calls"] - 1, 0), traces=1,
                        max_calls_converged=out["calls"] if out["status"] == "ok" else None,
                        periodic=1 if out["period"] is not None else 0,
